@@ -7,6 +7,7 @@ import re
 from sa import astutil as A
 from sa import cfg as C
 from sa import dataflow as D
+from sa import surface as S
 from sa.index import AnalysisError
 
 PROP = 'C20'
@@ -503,7 +504,7 @@ def rule_d(ctx):
          'Html.element writes the closing tag of the tag it opened on every path', f.loc,
          f'closing tag missing or skippable: {wit}')
   f = idx.func('pyglove.core.views.html.base.Html.escape')
-  txt = A.unparse(f.node, 5000)
+  txt = S.closure_text(idx, f)
   ok = 'html_lib.escape(' in txt
   rets = [n for n in ast.walk(f.node) if isinstance(n, ast.Return)]
   ctx.ob('C20.d', f.fq, ok, 'Html.escape escapes text with html.escape (&, <, >, quotes)', f.loc,
@@ -536,7 +537,7 @@ def rule_e(ctx):
   idx = ctx.index
   f = idx.func('pyglove.core.views.html.base.Html.escape')
   stores = []
-  for x in ast.walk(f.node):
+  for x in [y for h in S.helper_closure(idx, f) for y in ast.walk(h.node)]:
     if isinstance(x, (ast.Assign, ast.AugAssign)):
       for t in A.stmt_targets(x):
         if isinstance(t, (ast.Subscript, ast.Attribute)):
